@@ -507,6 +507,7 @@ static void breadth_cases(void)
             else for (c = top->child; c; c = c->next) { int kc = 0; cJSON *g; cnt++; for (g = c->child; g; g = g->next) kc++; if ((c->type & 0xFF) != E[e].type || kc != E[e].kids) bad = 1; if (cnt > k) break; }
             if (bad || cnt != k) viol("C02", "%d elements %s side by side: the tree has %d children / a child of another shape", k, E[e].elem, cnt);
             p = cJSON_PrintUnformatted(t);
+            if (p) { char *r = p, *w = p; for (; *r; r++) if (*r != ' ' && *r != '\n' && *r != '\t' && *r != '\r') *w++ = *r; *w = 0; }      /* no string of these texts holds a blank: layout is not demanded */
             if (!p || strcmp(p, s)) viol("C02 C04", "%d elements %s side by side: the tree prints as something else than the text it was parsed from", k, E[e].elem);
             cJSON_free(p); cJSON_Delete(t);
         }
